@@ -276,7 +276,7 @@ UNCOMPILABLE_RESOURCE_ORDERS = {tuple(x.split()) for x in (
 def gen_resource_views(rng):
     import itertools
     out = [[]]
-    for k in (1, 2, 3, 4):
+    for k in range(1, len(RESOURCES) + 1):
         for perm in itertools.permutations(RESOURCES, k):
             if perm in UNCOMPILABLE_RESOURCE_ORDERS:
                 continue
@@ -293,7 +293,12 @@ def mask_comps(mask, comps):
 
 
 def main():
+    global RESOURCES
     reg = sys.argv[1]
+    if reg == "r8":
+        # The 8-component registry runs on worlds WITHOUT resources (`World::new()`), the most
+        # common configuration in user code.
+        RESOURCES = []
     out_path = sys.argv[2]
     seed = int(sys.argv[3]) if len(sys.argv) > 3 else 20260926
     rng = random.Random(f"{reg}-{seed}")
@@ -373,13 +378,17 @@ def main():
     w(f"pub const NAME: &str = \"{reg}\";")
     w(f"pub const NC: usize = {nc};")
     w("pub type Reg = Registry!(" + ", ".join(comps) + ");")
+    w(f"pub const NRES: usize = {len(RESOURCES)};")
     w("pub type Res = Resources!(" + ", ".join(RESOURCES) + ");")
     w("pub type Wd = World<Reg, Res>;")
     w("")
     w("pub fn new_world(vals: [u64; 4], rec: &mut [(u64, u64); 4]) -> Wd {")
     for i, r in enumerate(RESOURCES):
         w(f"    let r{i} = <{r} as Tracked>::make(vals[{i}]); rec[{i}] = (r{i}.serial(), r{i}.val());")
-    w("    World::with_resources(resources!(" + ", ".join(f"r{i}" for i in range(4)) + "))")
+    if RESOURCES:
+        w("    World::with_resources(resources!(" + ", ".join(f"r{i}" for i in range(len(RESOURCES))) + "))")
+    else:
+        w("    World::new()")
     w("}")
     w("")
     w("pub fn read_resources(w: &Wd) -> Result<[(u64, u64); 4], String> {")
